@@ -667,9 +667,10 @@ pub fn gen_program(rng: &mut Rng, rich: bool) -> (ModuleSpec, ProgInfo) {
         let free_i32: Vec<u32> = (0..locals.len() as u32).filter(|i| locals[*i as usize] == VT::I32).collect();
         let free_i64: Vec<u32> = (0..locals.len() as u32).filter(|i| locals[*i as usize] == VT::I64).collect();
         let magic = FUNC_MAGIC_BASE + 1 + k as i64;
+        let magic_first = rng.chance(1, 2);
         let mut em = Em {
             rng,
-            out: vec![Ins::I64Const(magic), Ins::Drop],
+            out: if magic_first { vec![Ins::I64Const(magic), Ins::Drop] } else { vec![] },
             labels: vec![Lbl {
                 is_loop: false,
                 arity: 0,
@@ -692,6 +693,10 @@ pub fn gen_program(rng: &mut Rng, rich: bool) -> (ModuleSpec, ProgInfo) {
         em.budget = em.rng.range(3, 12) as i32;
         while em.budget > 0 {
             em.stmt(0);
+        }
+        if !magic_first {
+            em.out.push(Ins::I64Const(magic));
+            em.out.push(Ins::Drop);
         }
         em.mark();
         for t in results.clone() {
